@@ -385,7 +385,12 @@ Definition locate_config_dir (root : node) (cwd path : str) : result (option str
 (* ------------------------------------------------------------------ get_project *)
 Definition get_project (root : node) (cwd path : str) (search : bool) : result str * node :=
   if negb (os_exists root cwd path) then (Err ELookupError, root)
-  else if negb search && negb (os_isfile root cwd (cfgfn cwd path)) then (Err ELookupError, root)
+  else if negb search && negb (os_isfile root cwd (cfgfn cwd path)) then
+    (* since fix 7826961 the legacy detection runs here too (on the raw path) *)
+    match raise_if_older root cwd path with
+    | Some e => (Err e, root)
+    | None => (Err ELookupError, root)
+    end
   else
     match locate_config_dir root cwd path with
     | Err e => (Err e, root)
